@@ -1,5 +1,6 @@
 """C02 Frame boundaries follow RFC 9114 7.1 (structural clauses)."""
 from engine import flow as fl, ru, paths as pa, expr
+from rules import shared
 
 EXPLANATION = (
     "Path-table and def-use analysis of Frame::decode, FrameDecoder::decode, FrameStream::{poll_next,poll_data} and the "
@@ -138,16 +139,7 @@ def run(ctx):
             ctx.check(ok, "C02-c", fd.key, "unknown frame skipped in full, decoding continues",
                       "the UnknownFrame arm ends with %s / advances by %s; expected src.advance(cursor position) then `continue`"
                       % (p.end if p.end != "return" else p.ret_shape(), [pa.vfmt(e[3][1]) for e in adv]), "", None, p.describe())
-        # C02-f / C04-e: memo cleared whenever bytes were consumed
-        for p in its:
-            if not p.calls("h3::buf::BufList::advance", "::advance"):
-                continue
-            st = [e for e in p.stores() if "expected" in pa.vfmt(e[4])]
-            ok = bool(st) and st[-1][3][0] == "agg" and st[-1][3][2] == "None"
-            vt = [lab for _, lab, _ in p.variant_tests(FR + "Frame::decode")]
-            ctx.check(ok, "C02-f", fd.key, "memo cleared after consuming (%s)" % "/".join(vt),
-                      "bytes are consumed (src.advance) on the %s path without resetting the `expected` bytes-needed memo: the stale "
-                      "minimum is applied to the next frame, which then stalls or is reported truncated" % "/".join(vt), "", None, p.describe())
+        shared.frame_decoder_memo(ctx, "C02-f", its)
         # C02-e: error mapping FrameError -> FrameProtocolError
         want = {"InvalidStreamId": "InvalidStreamId", "InvalidPushId": "InvalidPushId", "Settings": "Settings",
                 "UnsupportedFrame": "ForbiddenFrame", "InvalidFrameValue": "InvalidFrameValue", "Malformed": "Malformed"}
